@@ -27,10 +27,10 @@ func c52Recount(h *Head) c52Counts {
 			s.Lock()
 			c.series++
 			isStale, isHist, buckets := s.sampleState()
-			// sampleState reads the newest in-order sample; a series without any sample is neither
-			if s.headChunks == nil && len(s.mmappedChunks) == 0 {
-				isStale, isHist, buckets = false, false, 0
-			}
+			// sampleState reads the series' remembered newest in-order sample. That sample still
+			// defines the series' class when its chunk has been compacted away and the series stays in
+			// the head only for its out-of-order chunks (an earlier version of this recount treated a
+			// series without in-order chunks as "neither": a false alarm, see DESIGN 12.3b).
 			if isStale {
 				c.stale++
 			}
@@ -89,6 +89,27 @@ func c52Check(x *dbx) *vx.Fail {
 // c52MixedOOO: does any series of the model hold out-of-order-stored samples of both float and
 // histogram type?
 func c52MixedOOO(x *dbx) bool {
+	// by history: the model forgets deleted samples, the gauge does not recover
+	kinds := map[string]map[bool]bool{}
+	for _, op := range x.hist {
+		p := strings.Split(op, "/")
+		if p[0] != "app" {
+			continue
+		}
+		for i := 1; i+2 < len(p); i += 3 {
+			if strings.HasPrefix(p[i+1], "F-") {
+				if kinds[p[i]] == nil {
+					kinds[p[i]] = map[bool]bool{}
+				}
+				kinds[p[i]][p[i+2] == "f" || p[i+2] == "st"] = true
+			}
+		}
+	}
+	for _, k := range kinds {
+		if k[true] && k[false] {
+			return true
+		}
+	}
 	for _, ms := range x.m.series {
 		if ms == nil {
 			continue
